@@ -112,6 +112,24 @@ def run(facts, rep, tier):
                 rep.oblige(ok, ("adv-relaxed", r.ctx["label"], off))
                 if not ok:
                     rep.add(Finding("R10.2", "%s never decoded under -R" % off, "context '%s': -R should lift the advertisement requirement" % r.ctx["label"], None))
+    # ... and what a 1,7 report advertised stays recorded until the next 1,7 report: no other frame rewrites the adverts
+    from ..absint.k2 import changed_fields
+    seen_lab = set()
+    for r in results:
+        if not accepted(r) or r.df is None or r.post_update is None:
+            continue
+        if r.df in (20, 21):
+            continue          # a Comm-B reply may be a 1,7 report itself
+        n += 1
+        ch = changed_fields(r.pre, r.post_update)
+        ok = "capability.1" not in ch
+        rep.oblige(ok, ("adverts-persist", r.ctx["label"]))
+        key = (r.df, bool(r.ctx.get("U")))
+        if not ok and key not in seen_lab:
+            seen_lab.add(key)
+            rep.add(Finding("R10.2", "register adverts rewritten by a DF%d frame (%s path)" % (r.df, "U" if r.ctx.get("U") else "D"),
+                            "context '%s': a DF%d frame changes the row's BDS 1,7 register adverts: registers that were advertised stop being "
+                            "decoded (or the reverse) until the next 1,7 report" % (r.ctx["label"], r.df), None))
     rep.instances("R10.2", n, floor=6)
     # ---- R10.3
     n = 0
